@@ -1,7 +1,10 @@
 --------------------------- MODULE Trace_ErrorReport ---------------------------
 (***************************************************************************)
-(* C08 trace validation.  Each line is a grammar (the AST the real reader  *)
-(* returned) with recorded FAILING parses of the real parser: error        *)
+(* C08 trace validation.  Each line is a grammar (the OPTIMIZED rules the   *)
+(* back-ends execute, exported from the real optimizer: the property is    *)
+(* about the attempts of the run that was made, and the optimizer removes  *)
+(* and merges attempts, e.g. x | x ~ y => x) with recorded FAILING parses  *)
+(* of the real parser: error                                               *)
 (* position (bytes), expected and unexpected rule names, and whether the   *)
 (* two lists were strictly increasing in the rule type's own order.  TLC   *)
 (* evaluates the semantics with the attempt history and requires the       *)
@@ -16,7 +19,7 @@ SetOf(s) == { s[i] : i \in 1..Len(s) }
 
 CheckCase(rec, c, i) ==
   IF c.got.k # "fail" THEN TRUE
-  ELSE LET r == ParseH(rec.g, c.inp, rec.uni, rec.extras, Fuel, c.start) IN
+  ELSE LET r == ParseHO(rec.gopt, c.inp, rec.uni, rec.extras, Fuel, c.start) IN
        IF r.k # "fail" THEN PrintT(<<"SKIPPED", r.k, rec.id>>)      \* acceptance itself is C01's subject
        ELSE LET rep == Report(r.h)
                 exp == [pos |-> IF rep.pos = 0 THEN 0 ELSE ByteOff(c.inp, rep.pos),
